@@ -194,6 +194,16 @@ def d1_layout(ctx, fits, rule='C07-D1', rule2='C07-D2', rule5='C07-D5'):
         return
     jd = find_def(f, unparse(B.value)) if isinstance(B.value, ast.Name) else []
     okj = len(jd) == 1 and jd[0].value is hcalls[0]
+    if not okj and any(d_.value is hcalls[0] for d_ in jd):
+        # the matrix has a second definition on another path: one that does not even mention the compact chi-square is a formula
+        # for a special case (uncorrelated data, no priors ...), not the derivative of the function that was minimised
+        alt = [d_ for d_ in jd if d_.value is not hcalls[0] and not any(isinstance(n_, ast.Name) and n_.id == cf.name for n_ in ast.walk(d_.value))]
+        for d_ in alt:
+            ctx.violated(rule, key + '#alternative[%s]' % unparse(d_.value)[:40], 'on one path the matrix of mixed derivatives `%s` is not hessian(%s)(...) but built as `%s` (guards %s): '
+                         'the sensitivities are then not those of the chi-square that defines the fit (e.g. its correlation matrix / priors)' % (
+                             unparse(B.value), cf.name, unparse(d_.value)[:60], [unparse(t) for t, pol in guards_of(fits, d_, stop=f) if pol]), fits.loc(d_))
+        if alt:
+            return
     if not okj:
         ctx.unrec(rule, key, 'mixed block is not taken directly from hessian(%s)(...): %s' % (cf.name, unparse(B)))
         return
